@@ -109,6 +109,7 @@ static bool read_phase(const Plan &P, const std::string &prop, AResult &A, RunOu
 
 static void count_ops(const Plan &P, RunOutcome &out) {
     for (auto &o : P.ops) out.ctr[std::string("op_") + op_names[o.kind]]++;
+    for (auto &o : P.ops) { if (o.kind == OP_SIG && o.src == 0) out.ctr["reach_signal_on_builtin_source0"]++; if (o.kind == OP_USER && o.en) out.ctr["reach_user_data_call_refused_null"]++; }
     for (auto &o : P.reads) out.ctr[std::string("rd_") + op_names[o.kind]]++;
     if (P.use_twr) out.ctr["runs_threaded_writer"]++; else out.ctr["runs_sync_writer"]++;
 }
